@@ -53,6 +53,9 @@ class AbstractExcelInPython(ABC):
             
             return isinstance(other, self.__class__)
         
+        def __ne__(self, other: Any) -> bool:
+            return not self.__eq__(other)
+        
         def __lt__(self, other: Any) -> bool:
             if isinstance(other, (datetime.date, datetime.datetime)):
                 # Ну вот так excel себя чувствует, пустая ячейка меньше любой даты
